@@ -17,7 +17,7 @@ ID = 'C16'
 LEVEL = 'exploration'
 REPLAY_DEADLINE = 120
 
-FLAGSETS = ['GE', 'GDE', 'E', 'GEO', 'GEF', 'LE', 'GEQ', 'GEY', 'GEN']
+FLAGSETS = ['GE', 'GDE', 'E', 'GEO', 'GEF', 'LE', 'GEQ', 'GEY', 'GEN', 'LEF']
 
 
 def pl_flags(fs):
